@@ -3,6 +3,7 @@ import Compass.Drv.Search
 import Compass.Drv.C15
 import Compass.Drv.C07
 import Compass.Drv.C11
+import Compass.Drv.C18
 
 /-- `driver <prop>`: reads one case per line on stdin, prints the model's canonical output line -/
 partial def loop (h : IO.FS.Stream) (out : IO.FS.Stream) (f : String → String) : IO Unit := do
@@ -26,6 +27,7 @@ def dispatch : String → Option (String → String)
   | "C15" => some Compass.Drv.C15.run
   | "C07" => some Compass.Drv.C07.run
   | "C11" => some Compass.Drv.C11.run
+  | "C18" => some Compass.Drv.C18.run
   | _ => none
 
 def main (args : List String) : IO UInt32 := do
